@@ -324,15 +324,20 @@ def opposite (st : St) : Except String St :=
 
 def patMatch (pat x : Nat) : Bool := pat = 99 || pat = x
 
-def fixLookup (ls rs mi pi : Nat) : List (List Nat × Nat × Nat × Nat × Nat) → Nat
+/-- A state pattern of the correction match: (state code, payload 0 `None` | 1 `Some(raw line)` | 99 any). -/
+def patMatch2 (pat : Nat × Nat) (code raw : Nat) : Bool := patMatch pat.1 code && patMatch pat.2 raw
+
+def fixLookup (ls lraw rs rraw mi pi : Nat) : List (List (Nat × Nat) × (Nat × Nat) × Nat × Nat × Nat) → Nat
   | [] => 0
   | (lp, rp, mp, pp, act) :: rest =>
-    if lp.any (patMatch · ls) && patMatch rp rs && patMatch mp mi && patMatch pp pi then act
-    else fixLookup ls rs mi pi rest
+    if lp.any (patMatch2 · ls lraw) && patMatch2 rp rs rraw && patMatch mp mi && patMatch pp pi then act
+    else fixLookup ls lraw rs rraw mi pi rest
 
-/-- The correction at the tail of the side-by-side row loop. -/
-def applyFix (c : Counters) (ls rs : St) (mi pi : Bool) : Except String Counters :=
-  match fixLookup ls.code rs.code (if mi then 1 else 0) (if pi then 1 else 0) sbsFixArms with
+/-- The correction at the tail of the side-by-side row loop. `lraw`/`rraw`: the left / right state
+    still carries its raw line (`HunkMinus(_, Some(raw))`: coloured input, `raw` styles). -/
+def applyFix (c : Counters) (ls rs : St) (lraw rraw mi pi : Bool) : Except String Counters :=
+  match fixLookup ls.code (if lraw then 1 else 0) rs.code (if rraw then 1 else 0)
+      (if mi then 1 else 0) (if pi then 1 else 0) sbsFixArms with
   | 1 =>
     match addUsize c.left 1 with
     | .error e => .error e
@@ -347,7 +352,8 @@ structure SbsRow where
   deriving DecidableEq, Repr
 
 /-- One iteration of the row loop of `paint_minus_and_plus_lines_side_by_side`. -/
-def sbsRow (c : Counters) (sl sr : List St) (mi pi : Option Nat) : Except String (Counters × SbsRow) :=
+def sbsRow (c : Counters) (sl sr : List St) (lraw rraw : Bool) (mi pi : Option Nat) :
+    Except String (Counters × SbsRow) :=
   match (match mi with | some i => lookupSt sl i | none => Except.ok (St.ofCode sbsDefaultStates.1)) with
   | .error e => .error e
   | .ok ls =>
@@ -366,30 +372,37 @@ def sbsRow (c : Counters) (sl sr : List St) (mi pi : Option Nat) : Except String
             match paintLine true c1 nr (some .right) with
             | .error e => .error e
             | .ok (c2, cr) =>
-              match applyFix c2 ls rs mi.isSome pi.isSome with
+              match applyFix c2 ls rs lraw rraw mi.isSome pi.isSome with
               | .error e => .error e
               | .ok c3 => .ok (c3, ⟨cl, cr⟩)
 
-def sbsRows (c : Counters) (sl sr : List St) : Alignment → Except String (Counters × List SbsRow)
+/-- Raw-payload flag of the state at a line index (`None` index: the default state, payload `None`). -/
+def rawAt (flags : List Bool) : Option Nat → Bool
+  | some i => flags.getD i false
+  | none => false
+
+/-- The row loop. `rl`/`rr`: for each entry of `sl`/`sr`, whether that state carries a raw line. -/
+def sbsRows (c : Counters) (sl sr : List St) (rl rr : List Bool) : Alignment → Except String (Counters × List SbsRow)
   | [] => .ok (c, [])
   | (mi, pi) :: rest =>
-    match sbsRow c sl sr mi pi with
+    match sbsRow c sl sr (rawAt rl mi) (rawAt rr pi) mi pi with
     | .error e => .error e
     | .ok (c1, row) =>
-      match sbsRows c1 sl sr rest with
+      match sbsRows c1 sl sr rl rr rest with
       | .error e => .error e
       | .ok (c2, rows) => .ok (c2, row :: rows)
 
 /-- `paint_minus_and_plus_lines_side_by_side` for a subhunk of `m` minus and `p` plus lines with
     line alignment `al`; `wl`/`wr`: number of rows of each line (all 1 = nothing wraps, in which
-    case `wrap_minusplus_block` is not called). -/
-def sbsBlock (c : Counters) (m p : Nat) (al : Alignment) (wl wr : List Nat) :
+    case `wrap_minusplus_block` is not called); `rl`/`rr`: which lines are kept raw in their state. -/
+def sbsBlock (c : Counters) (m p : Nat) (al : Alignment) (wl wr : List Nat) (rl rr : List Bool) :
     Except String (Counters × List SbsRow) :=
   if wl.any (· ≠ 1) || wr.any (· ≠ 1) then
     match wrapBlock wl wr al 0 0 0 0 with
     | .error e => .error e
-    | .ok (al', sl, sr) => sbsRows c sl sr al'
-  else sbsRows c (List.replicate m .minus) (List.replicate p .plus) al
+    -- `wrap_minusplus_block` rebuilds the states without raw payload
+    | .ok (al', sl, sr) => sbsRows c sl sr [] [] al'
+  else sbsRows c (List.replicate m .minus) (List.replicate p .plus) rl rr al
 
 /-- Both panels of one row of an unchanged line (`paint_zero_lines_side_by_side` inner loop). -/
 def zeroPanels (c : Counters) (st : St) : List Nat → Except String (Counters × List (Option Cell))
@@ -421,14 +434,14 @@ def zeroSbs (c : Counters) (rows : Nat) : Except String (Counters × List SbsRow
     `paint_buffered_minus_and_plus_lines`. -/
 inductive Block where
   | zero (rows : Nat)
-  | sub (m p : Nat) (al : Alignment) (wl wr : List Nat)
+  | sub (m p : Nat) (al : Alignment) (wl wr : List Nat) (rl rr : List Bool)
 
 def runBlocksSbs (c : Counters) : List Block → Except String (Counters × List SbsRow)
   | [] => .ok (c, [])
   | b :: rest =>
     match (match b with
            | .zero rows => zeroSbs c rows
-           | .sub m p al wl wr => if m = 0 ∧ p = 0 then .ok (c, []) else sbsBlock c m p al wl wr) with
+           | .sub m p al wl wr rl rr => if m = 0 ∧ p = 0 then .ok (c, []) else sbsBlock c m p al wl wr rl rr) with
     | .error e => .error e
     | .ok (c1, r1) =>
       match runBlocksSbs c1 rest with
@@ -440,7 +453,7 @@ def runBlocksU (c : Counters) : List Block → Except String (Counters × List (
   | b :: rest =>
     match (match b with
            | .zero _ => paintZeroU c
-           | .sub m p _ _ _ => paintSubhunkU c m p) with
+           | .sub m p _ _ _ _ _ => paintSubhunkU c m p) with
     | .error e => .error e
     | .ok (c1, r1) =>
       match runBlocksU c1 rest with
